@@ -45,6 +45,6 @@ func TestC01(t *testing.T) {
 			}
 			return chainsim.HashPlan(p)
 		},
-		StallS: 60, Meta: chainMeta,
+		StallS: 60, ShrinkBudget: 300, Meta: chainMeta,
 	})
 }
